@@ -212,4 +212,22 @@ def run_case(c):
         if not rel <= RTOL:
             bad("window/values/" + ab, "no periodic roll maps reduced window probe %d onto the periodised probe (best %.3g relative)" % (k, rel))
             break
-    return {"viol": viol, "obs": "ok" if not viol else viol[0]["key"], "nt": True, "tr": 2, "ref": flat_g.shape[0] * n * m, "err": worst}
+    # translation covariance of the window: probe positions that differ by WHOLE pixels (incl. positions next to the x = 0 / y = 0 cell
+    # edges, where the crop corner is negative, and next to the upper edges) must give the identical window array - the window follows the probe
+    px = (EXT[0] / GP[0], EXT[1] / GP[1])
+    for base in (((0.0, 0.0), (0.1, 0.07)) if not c["down"] else ()):  # with downsampling the S-matrix lives on a coarser grid: these are not whole pixels there
+        shifts = [(12, 12), (1, 1), (0, 12), (12, 0), (2, 23), (23, 3), (0, 0), (23, 23), (5, 1)]
+        pos2 = [[base[0] + i * px[0], base[1] + j * px[1]] for i, j in shifts]
+        gw = S.reduce(scan=abtem.CustomScan(pos2), ctf=ctf, lazy=c["lazy"], max_batch_reduction=c.get("mbr", "auto"))
+        gw = np.asarray((gw.compute() if c["lazy"] else gw).array)
+        gw = gw.reshape((-1, len(pos2)) + gw.shape[-2:]) if gw.ndim > 3 else gw[None]
+        for e_ in range(gw.shape[0]):
+            ref0 = gw[e_, 0]
+            for k in range(1, len(pos2)):
+                d = float(np.abs(gw[e_, k] - ref0).max()) / float(np.abs(ref0).max())
+                worst = max(worst, d / RTOL)
+                if not d <= RTOL:
+                    bad("window/whole-pixel-shift-changes-window/" + ab, "window probe at pixel position %r differs from the one at pixel position %r by %.3g (relative): the crop window does not follow the probe" % (
+                        shifts[k], shifts[0], d))
+                    break
+    return {"viol": viol, "obs": "ok" if not viol else viol[0]["key"], "nt": True, "tr": 4, "ref": flat_g.shape[0] * n * m, "err": worst}
